@@ -78,14 +78,18 @@ def gen_plan(seed: int, run: int, tier: str) -> dict:
     rng = random.Random(f"{seed}:C10:{run}")
     models = _SDK_MODELS or []
     model = models[rng.randrange(len(models))]
+    edits: List[list] = []
     if rng.random() < (0.1 if tier == "quick" else 0.25):
         model = BIG
+    elif rng.random() < 0.35:
+        # meta-model variant: exotic (astral, quoted, blank-padded, markup) enumeration values
+        edits = [["enum_values", rng.randrange(6)]]
     chunkings = []
     for _ in range(int(tiers[tier]["chunkings"])):
         chunkings.append({"mode": rng.choice(["tiny", "tiny", "after_gt", "random", "one_cut",
                                               "before_lt", "words"]),
                           "seed": rng.randrange(1 << 30)})
-    return {"engine": "xmlstream", "seed": seed, "run": run, "model": model,
+    return {"engine": "xmlstream", "seed": seed, "run": run, "model": model, "model_edits": edits,
             "instance_seed": rng.randrange(1 << 30),
             "allow_cr": rng.random() < 0.25, "allow_empty_bytes": rng.random() < 0.3,
             "edit": {"kind": EDIT_KINDS[rng.randrange(len(EDIT_KINDS))], "seed": rng.randrange(1 << 30)},
@@ -334,7 +338,12 @@ def execute(plan: dict) -> dict:
     violations: List[dict] = []
     out: Dict[str, Any] = {"plan": plan, "violations": violations, "stats": stats,
                            "distinct": [], "inconclusive": None, "digest": None, "sample": None}
-    text = workload.materialise({"model": plan["model"]})
+    text = workload.materialise({"model": plan["model"], "edits": plan.get("model_edits", [])})
+    if plan.get("model_edits") and text == workload.materialise({"model": plan["model"]}):
+        plan = dict(plan, model_edits=[])
+        out["plan"] = plan
+    if plan.get("model_edits"):
+        stats["probe:model_with_exotic_enum_values"] = 1
     sdkm = S.load_sdk(plan["model"], text)
     if sdkm is None:
         out["inconclusive"] = "sdk-not-importable"
@@ -567,6 +576,10 @@ def reductions(plan: dict) -> Iterator[dict]:
             p = copy.deepcopy(plan)
             p["chunkings"] = [ch[i]]
             yield p
+    if plan.get("model_edits"):
+        p = copy.deepcopy(plan)
+        p["model_edits"] = []
+        yield p
     for flag in ("allow_cr", "allow_empty_bytes"):
         if plan.get(flag):
             p = copy.deepcopy(plan)
